@@ -275,51 +275,56 @@ func c04Unsupported(w *World, r *Report) {
 	}
 	// CreateProgram: success return only under both-nil
 	cp := w.Method("xpath", "CommonLex", "CreateProgram")
-	fd, p := w.FuncDecl(cp)
-	okShape := false
-	var succIf *ast.IfStmt
-	for _, s := range fd.Body.List {
-		if is, ok := s.(*ast.IfStmt); ok && succIf == nil {
-			succIf = is
-		}
-	}
-	if succIf != nil {
-		// condition must be a conjunction containing `parseErr == nil` and `GetError() == nil` / `err == nil`
-		conj := flattenAnd(succIf.Cond)
-		hasParse, hasLex := false, false
+	fd, _ := w.FuncDecl(cp)
+	okShape, okRest := false, true
+	if cf := w.SSAFunc(cp); cf != nil && len(ssaLoops(cf)) == 0 {
+		sym := NewSym(w)
+		sym.Expand = false
 		lexErrF := w.Field("xpath", "CommonLex", "err")
 		getErr := w.Method("xpath", "CommonLex", "GetError")
-		for _, c := range conj {
-			be, ok := ast.Unparen(c).(*ast.BinaryExpr)
-			if !ok || be.Op != token.EQL || !isNilIdent(p, be.Y) {
-				continue
+		isLoadOf := func(v ssa.Value, fld *types.Var) bool {
+			ld, ok := v.(*ssa.UnOp)
+			if !ok || ld.Op != token.MUL {
+				return false
 			}
-			if fieldOfSel(p, be.X) == parseErr {
-				hasParse = true
-			}
-			if fieldOfSel(p, be.X) == lexErrF {
-				hasLex = true
-			}
-			if ce, ok := ast.Unparen(be.X).(*ast.CallExpr); ok && calleeOf(p, ce) == getErr {
-				hasLex = true
-			}
+			fa, ok := ld.X.(*ssa.FieldAddr)
+			return ok && isFieldAddrOf(fa, fld)
 		}
-		okShape = hasParse && hasLex && len(conj) == 2
-	}
-	// all returns outside succIf return a fresh error
-	okRest := true
-	for _, ret := range returnsIn(fd.Body) {
-		if succIf != nil && ret.Pos() >= succIf.Body.Pos() && ret.End() <= succIf.Body.End() {
-			continue
+		classify := func(a *pcAtom) string {
+			if a.op != token.EQL || a.x == nil {
+				return ""
+			}
+			for _, pair := range [][2]ssa.Value{{a.x, a.y}, {a.y, a.x}} {
+				if !isNilConst(pair[1]) {
+					continue
+				}
+				if isLoadOf(pair[0], parseErr) {
+					return "parseok"
+				}
+				if isLoadOf(pair[0], lexErrF) {
+					return "lexok"
+				}
+				if c, ok := pair[0].(*ssa.Call); ok && c.Call.StaticCallee() != nil && c.Call.StaticCallee().Object() == types.Object(getErr) {
+					return "lexok"
+				}
+			}
+			return ""
 		}
-		if len(ret.Results) != 2 {
+		r1 := sym.retTable(cf, 1)
+		succ := pcZ
+		for _, row := range r1 {
+			if c, ok := row.val.(*ssa.Call); ok && c.Call.StaticCallee() != nil && c.Call.StaticCallee().String() == "fmt.Errorf" {
+				continue // a failure exit with a freshly built error
+			}
+			if ex, ok := row.val.(*ssa.Extract); ok {
+				if c, ok := ex.Tuple.(*ssa.Call); ok && c.Call.StaticCallee() != nil && c.Call.StaticCallee().Name() == "GetMainProg" {
+					succ = pcOrF(succ, row.cond)
+					continue
+				}
+			}
 			okRest = false
-			continue
 		}
-		ce, ok := ret.Results[1].(*ast.CallExpr)
-		if !ok || calleeOf(p, ce) == nil || calleeOf(p, ce).FullName() != "fmt.Errorf" {
-			okRest = false
-		}
+		okShape = pcCompare(succ, classify, func(env map[string]bool) bool { return env["parseok"] && env["lexok"] }) == ""
 	}
 	r.Check(okShape && okRest, "R04.2", "CommonLex.CreateProgram", fd.Pos(), "program returned only when parseErr == nil && lexer error == nil; every other return builds an error",
 		"CreateProgram can return a program although a parse or lexer error was recorded (or return without an error on the failure path)")
@@ -705,120 +710,99 @@ func c04FuncLookup(w *World, r *Report) {
 
 func c04ErrRune(w *World, r *Report) {
 	ct := w.Method("xpath", "CommonLex", "ConstructToken")
-	fd, p := w.FuncDecl(ct)
-	errTok := xutilsTok(w, "ERR")
-	setErrM := w.Method("xpath", "CommonLex", "SetError")
-	// the appending closure: a local func literal that calls (*bytes.Buffer).WriteRune
-	var addObj types.Object
-	ast.Inspect(fd.Body, func(n ast.Node) bool {
-		as, ok := n.(*ast.AssignStmt)
-		if !ok || len(as.Rhs) != 1 {
-			return true
-		}
-		fl, ok := as.Rhs[0].(*ast.FuncLit)
-		if !ok {
-			return true
-		}
-		writes := false
-		ast.Inspect(fl.Body, func(x ast.Node) bool {
-			if ce, ok := x.(*ast.CallExpr); ok {
-				if f := calleeOf(p, ce); f != nil && f.FullName() == "(*bytes.Buffer).WriteRune" {
-					writes = true
-				}
-			}
-			return true
-		})
-		if writes {
-			addObj = objOfIdent(p, as.Lhs[0])
-		}
-		return true
-	})
-	if addObj == nil {
-		panic(undecided{"ConstructToken: appending closure not found"})
+	f := w.SSAFunc(ct)
+	if f == nil {
+		panic(undecided{"CommonLex.ConstructToken"})
 	}
-	n := 0
-	var visit func(list []ast.Stmt)
-	checkList := func(list []ast.Stmt) {
-		for i, s := range list {
-			es, ok := s.(*ast.ExprStmt)
-			if !ok {
-				continue
-			}
-			ce, ok := es.X.(*ast.CallExpr)
-			if !ok || objOfIdent(p, ce.Fun) != addObj || len(ce.Args) != 2 {
-				continue
-			}
-			n++
-			runeObj := objOfIdent(p, ce.Args[1])
-			guarded := false
-			for _, prev := range list[:i] {
-				is, ok := prev.(*ast.IfStmt)
-				if !ok {
-					continue
-				}
-				tests := false
-				for _, c := range flattenAnd(is.Cond) {
-					if be, ok := ast.Unparen(c).(*ast.BinaryExpr); ok && be.Op == token.EQL && objOfIdent(p, be.X) == runeObj {
-						if v, ok := ConstInt(p, be.Y); ok && v == errTok {
-							tests = true
+	errTok := xutilsTok(w, "ERR")
+	invalid := w.Field("xpath", "CommonLex", "invalidUTF8")
+	// what appends a rune to the token: (*bytes.Buffer).WriteRune, called directly
+	// or through a local closure that hands its rune parameter on
+	writesRune := func(g *ssa.Function) int {
+		for _, b := range g.Blocks {
+			for _, in := range b.Instrs {
+				if c, ok := in.(*ssa.Call); ok && c.Call.StaticCallee() != nil && c.Call.StaticCallee().String() == "(*bytes.Buffer).WriteRune" {
+					for i, p := range g.Params {
+						if c.Call.Args[1] == ssa.Value(p) {
+							return i
 						}
 					}
 				}
-				if !tests || len(is.Body.List) == 0 {
-					continue
-				}
-				sets := len(callsTo(p, is.Body, setErrM)) > 0
-				leaves := false
-				switch l := is.Body.List[len(is.Body.List)-1].(type) {
-				case *ast.BranchStmt:
-					leaves = l.Tok == token.BREAK
-				case *ast.ReturnStmt:
-					leaves = true
-				}
-				if sets && leaves {
-					guarded = true
-				}
 			}
-			r.Check(guarded, "R04.11", fmt.Sprintf("CommonLex.ConstructToken append #%d", n), ce.Pos(), "ERR test with SetError precedes the append",
-				"a rune from Next() is appended to the token without excluding the invalid-UTF-8 marker: '\\xff' inside a literal would compile")
 		}
+		return -1
 	}
-	visit = func(list []ast.Stmt) {
-		checkList(list)
-		for _, s := range list {
-			ast.Inspect(s, func(x ast.Node) bool {
-				switch b := x.(type) {
-				case *ast.FuncLit:
-					return false
-				case *ast.BlockStmt:
-					checkList(b.List)
-				case *ast.CaseClause:
-					checkList(b.Body)
-				}
-				return true
-			})
-		}
-	}
-	visit(fd.Body.List)
-	// Next() must raise the flag that these tests read, or test nothing but the rune
-	// WriteRune on a token buffer happens nowhere else in the lexers
-	for _, pkgKey := range []string{"xpath", "xpath/grammars/expr", "xpath/grammars/leafref", "xpath/grammars/path_eval"} {
-		pk := w.Pkg(pkgKey)
-		for _, f := range funcDecls(pk) {
-			if isTestFile(w, f.Pos()) || pk.TypesInfo.Defs[f.Name] == ct {
+	sym := NewSym(w)
+	n := 0
+	for _, b := range f.Blocks {
+		for _, in := range b.Instrs {
+			c, ok := in.(*ssa.Call)
+			if !ok {
 				continue
 			}
+			var rn ssa.Value
+			if sc := c.Call.StaticCallee(); sc != nil && sc.String() == "(*bytes.Buffer).WriteRune" {
+				rn = c.Call.Args[1]
+			} else if mc, ok := c.Call.Value.(*ssa.MakeClosure); ok {
+				if i := writesRune(mc.Fn.(*ssa.Function)); i >= 0 && i < len(c.Call.Args) {
+					rn = c.Call.Args[i]
+				}
+			} else if sc != nil && sc.Pkg == f.Pkg {
+				if i := writesRune(sc); i >= 0 && i < len(c.Call.Args) {
+					rn = c.Call.Args[i]
+				}
+			}
+			if rn == nil {
+				continue
+			}
+			n++
+			var cond *pcF
+			if l, inLoop := loopOf(f, b); inLoop {
+				cond = sym.PathCond(l.Header, b, nil)
+			} else {
+				cond = sym.PathCond(f.Blocks[0], b, nil)
+			}
+			msg := pcImplies(cond, func(a *pcAtom) string {
+				if bo, ok := a.v.(*ssa.BinOp); ok && a.subj != "" && a.set.equal(isetOf(errTok)) && (bo.X == rn || bo.Y == rn) {
+					return "iserr"
+				}
+				if ld, ok := a.v.(*ssa.UnOp); ok && ld.Op == token.MUL {
+					if fa, ok := ld.X.(*ssa.FieldAddr); ok && isFieldAddrOf(fa, invalid) {
+						return "invalid"
+					}
+				}
+				return ""
+			}, func(env map[string]bool) bool { return !(env["iserr"] && env["invalid"]) })
+			r.Check(msg == "", "R04.11", fmt.Sprintf("CommonLex.ConstructToken append #%d", n), c.Pos(), "the invalid-UTF-8 marker is excluded on every path to the append",
+				"a rune from Next() is appended to the token without excluding the invalid-UTF-8 marker ("+msg+"): '\\xff' inside a literal would compile")
+		}
+	}
+	if n == 0 {
+		panic(undecided{"ConstructToken: nothing appends to the token"})
+	}
+	// WriteRune on a token buffer happens nowhere else in the lexers (ConstructToken's own helpers apart)
+	for _, pkgKey := range []string{"xpath", "xpath/grammars/expr", "xpath/grammars/leafref", "xpath/grammars/path_eval"} {
+		pk := w.Pkg(pkgKey)
+		for _, fdl := range funcDecls(pk) {
+			if isTestFile(w, fdl.Pos()) || pk.TypesInfo.Defs[fdl.Name] == ct {
+				continue
+			}
+			if g, ok := pk.TypesInfo.Defs[fdl.Name].(*types.Func); ok {
+				if sg := w.SSAFunc(g); sg != nil && w.OwnedBy(sg, f) {
+					continue
+				}
+			}
 			recv := ""
-			if f.Recv != nil {
-				recv = funcDeclName(f)
+			if fdl.Recv != nil {
+				recv = funcDeclName(fdl)
 			}
 			if !strings.Contains(recv, "Lex") {
 				continue
 			}
-			ast.Inspect(f.Body, func(x ast.Node) bool {
+			ast.Inspect(fdl.Body, func(x ast.Node) bool {
 				if ce, ok := x.(*ast.CallExpr); ok {
 					if c := calleeOf(pk, ce); c != nil && (c.FullName() == "(*bytes.Buffer).WriteRune") {
-						r.Fail("R04.11", "token buffer written in "+pkgKey+"."+funcDeclName(f), ce.Pos(), "runes are appended to a token outside ConstructToken, bypassing the invalid-UTF-8 test")
+						r.Fail("R04.11", "token buffer written in "+pkgKey+"."+funcDeclName(fdl), ce.Pos(), "runes are appended to a token outside ConstructToken, bypassing the invalid-UTF-8 test")
 					}
 				}
 				return true
